@@ -412,6 +412,9 @@ class _RangeWrapper:
 
     def __next__(self) -> bytes:
         chunk = self._next()
+        # An empty chunk from the underlying iterable is not the end of the range.
+        while not chunk and not self.end_reached:
+            chunk = self._next()
         if chunk:
             return chunk
         self.end_reached = True
